@@ -41,6 +41,10 @@ func c17Gen(seed uint64, run int, tier string) *Case {
 		// injected operating-system errors: the mutating request of a step may meet a failing os / syscall call
 		c.Cfg["osrate"] = int64(r.Pick(60, 150, 400))
 		c.Stratum += " os-error"
+		if run%32 == 7 {
+			// directed: the first step creates over an existing file with OTRUNC and the stat after the open fails
+			c.Cfg["directed"] = 1
+		}
 	}
 	return c
 }
@@ -160,6 +164,7 @@ func c17Exec(x *Ctx) {
 			return rr
 		}
 		osrate := int(c.cfg("osrate"))
+		directedSkip := 0
 		var lastFault *rt.OSFired
 		// mut sends the mutating request of a step; only while it is executed may injected OS errors fire (at most one)
 		mut := func(m *Msg) *Recvd {
@@ -169,7 +174,12 @@ func c17Exec(x *Ctx) {
 			}
 			before := len(x.S.OSLog)
 			x.S.OSRate, x.S.OSMax = osrate, before+1
+			if directedSkip > 0 {
+				x.S.OSRate, x.S.OSSkip = 1000, directedSkip
+				directedSkip = 0
+			}
 			rr := call(m)
+			x.S.OSSkip = 0
 			x.S.OSRate = 0
 			if len(x.S.OSLog) > before {
 				f := x.S.OSLog[before]
@@ -195,10 +205,6 @@ func c17Exec(x *Ctx) {
 			if strict {
 				if d := diffSnap(before, snapshotTree(A, false)); d != "" {
 					rule := "t2-error-changed-tree"
-					if strings.HasPrefix(what, "Tcreate(\"") && strings.Contains(d, "len=") && !strings.Contains(d, ": \"\" vs") {
-						// the name was occupied by a file: the create acted as an open with truncation, which cannot be undone
-						rule = "t2-error-truncated-existing"
-					}
 					x.Violate(rule, "%s was answered %s (an %s call failed) but changed the tree: %s", what, m, lastFault.Name, d)
 				}
 			}
@@ -249,12 +255,30 @@ func c17Exec(x *Ctx) {
 			if !dotu && (kind == 2 || kind == 3) {
 				kind = 0
 			}
+			directed := c.cfg("directed") != 0 && k == 0
+			if directed {
+				kind = 0
+				if len(files) == 0 {
+					os.WriteFile(filepath.Join(A, "occupied"), pattern(777, 1, 2, 3), 0o644)
+					os.WriteFile(filepath.Join(B, "occupied"), pattern(777, 1, 2, 3), 0o644)
+					files = []string{"occupied"}
+					before = snapshotTree(A, false)
+				}
+			}
 			switch kind {
 			case 0, 1: // create a file, then write through the same fid
 				d := pickDir()
 				name := newName()
 				omode := uint8(r.Pick(0, 1, 2, 1|16, 2|16))
 				perm := uint32(r.Pick(0o644, 0o600, 0o755, 0o400))
+				if directed {
+					tf := files[r.Intn(len(files))]
+					d, name, omode = filepath.Dir(tf), filepath.Base(tf), 1|16
+					if d == "." {
+						d = ""
+					}
+					directedSkip = 3 // fid.stat, the existence probe and the open succeed; the stat after the open fails
+				}
 				what := fmt.Sprintf("Tcreate(%q in %q, perm %o, mode %d)", name, d, perm, omode)
 				f, ok := walkTo(d)
 				if !ok {
